@@ -84,6 +84,9 @@ def run(ctx):
         ok, why = T.move_check(name)
         ctx.check(ok, "R10.1", "%s|move-old-to-new" % name, "a TTL change first removes the id from the old expiry's shard and then inserts it under the new expiry's shard, on every path (insert-then-remove would delete the fresh entry whenever both expiries share a shard)", f.where(), why)
 
+    # ---- R10.10 index operations always happen
+    from core import no_try_locks
+    no_try_locks(ctx, "R10.10", {"T"}, "an index entry that is not removed / moved keeps its old deadline and the sweep later removes a live key; one that is not inserted is never swept")
     # ---- R10.2 sweep ------------------------------------------------------------------------------
     retains = [o for o in T.ops if o["kind"] == "retain"]
     ctx.floor("R10.2", "sweep (retain) sites", len(retains), 1)
